@@ -9,7 +9,9 @@ import (
 	"os"
 	"path/filepath"
 	"sync"
+	"runtime"
 	"sync/atomic"
+	"time"
 
 	"github.com/pojntfx/stfs/examples"
 	"github.com/pojntfx/stfs/pkg/cache"
@@ -54,9 +56,23 @@ type seams struct {
 	counts map[string]int
 	fired  bool
 	yield  bool
+	rng    uint64
 }
 
 func (s *seams) hit(seam string) bool {
+	if s.yield {
+		// concurrent runs: perturb the scheduler at every seam (derived from one seed)
+		s.mu.Lock()
+		s.rng = s.rng*6364136223846793005 + 1442695040888963407
+		k := (s.rng >> 33) % 8
+		s.mu.Unlock()
+		switch {
+		case k < 3:
+			runtime.Gosched()
+		case k == 3:
+			time.Sleep(time.Duration(50+(s.rng>>40)%400) * time.Microsecond)
+		}
+	}
 	s.mu.Lock()
 	defer s.mu.Unlock()
 	if s.counts == nil {
@@ -375,7 +391,10 @@ func mk(cfg Config, drive, meta, dir string, ks keyset, sm *seams) (*inst, error
 		in.wo = operations.NewOperations(in.bc, in.mc, in.pipes, in.crypto, func(e *config.HeaderEvent) {})
 	}
 	in.s = fs.NewSTFS(in.ro, in.wo, in.mc, cfg.Level,
-		func() (cache.WriteCache, func() error, error) { return cache.NewCacheWrite(dir, cfg.Cache) },
+		func() (cache.WriteCache, func() error, error) {
+			sm.hit("cache")
+			return cache.NewCacheWrite(dir, cfg.Cache)
+		},
 		cfg.ReadOnly, cfg.WPIR, func(h *config.Header) {}, examples.Logger{})
 	return in, nil
 }
